@@ -34,8 +34,8 @@ def spec_kind(code):
 # ------------------------------------------------------------------------------------------------ generator
 
 class Gen:
-    def __init__(self, ctx, tables, cdrv):
-        self.ctx = ctx; self.t = tables; self.cdrv = cdrv
+    def __init__(self, ctx, tables, cdrv, cpp=True):
+        self.ctx = ctx; self.t = tables; self.cdrv = cdrv; self.cpp = cpp
         self.protos = {p['name']: p for p in tables['protos']}
         self.ranges = xapi.macro_ranges(REPO)
         self.quick = ctx.tier == 'quick'
@@ -139,7 +139,7 @@ class Gen:
         q = self.quick; sp = self.sp; rng = self.rng; cat = self.catalog
         lines = []
         cap = 3000 if q else 60000
-        tmpl = sorted({w['name'] for w in self.t['wrappers'] if w['kind'] == 'inst'})
+        tmpl = sorted({w['name'] for w in self.t['wrappers'] if w['kind'] == 'inst'}) if self.cpp else sorted(self.t['scalar_functions'])
         for fn in tmpl:
             if fn in self.protos and xapi.is_simple(self.protos[fn]): lines += self.scalar_lines(fn, cap)
         # hand-written wrappers
@@ -176,10 +176,11 @@ class Gen:
                 lines.append('Crystal_F_H_StructureFactor %s %s %s %s %s E' % (s, E, h, db, ra))
                 fl = rng.choice([(0, 0, 0), (2, 2, 2), (1, 1, 1), (0, 2, 2), (2, 0, 1), (3, 2, 2), (-1, 2, 2), (2, 2, 5)])
                 lines.append('Crystal_F_H_StructureFactor_Partial %s %s %s %s %s %d %d %d E' % (s, E, h, db, ra, fl[0], fl[1], fl[2]))
-                lines.append('StructCopy %s %s %s E' % (s, E, h))
-                lines.append('StructNew %s %s %s E' % (s, xapi.sarg(n + '_new'), h))
+                if self.cpp:
+                    lines.append('StructCopy %s %s %s E' % (s, E, h))
+                    lines.append('StructNew %s %s %s E' % (s, xapi.sarg(n + '_new'), h))
         # _process_error on every code of the enum, beyond it, and NULL
-        for code in [-1, 0, 1, 2, 3, 4, 5, 6, 7]:      # 6, 7: representable in the enum's value range, beyond its enumerators
+        for code in ([-1, 0, 1, 2, 3, 4, 5, 6, 7] if self.cpp else []):      # 6, 7: representable in the enum's value range, beyond its enumerators
             for m in ['Z out of range', '', 'a%b c', 'x' * 300]:
                 lines.append('ProcessError %d %s E' % (code, xapi.sarg(m)))
         rule = ('every _XRL_FUNCTION wrapper x its discrete argument space (Z in [-3,125] x every macro in and +-3 around the header range), %s; '
